@@ -6,6 +6,17 @@ import json, os, re, subprocess, sys
 root = '/verif/seeded'
 desc = json.load(open('/verif/tools/seeded_descriptions.json'))
 rows = []
+# demonstrations still to be confirmed are run first, six at a time
+from concurrent.futures import ThreadPoolExecutor
+def _needs(mid):
+    mp = os.path.join(root, mid, 'meta.json')
+    if '--reverify' in sys.argv or not os.path.exists(mp): return True
+    return 'demonstration' not in json.load(open(mp))
+def _verify(mid):
+    return mid, subprocess.run(['/verif/tools/verify_demo.sh', os.path.join(root, mid)], capture_output=True, text=True).stdout.strip()
+todo = [m for m in sorted(os.listdir(root)) if os.path.isdir(os.path.join(root, m)) and _needs(m)]
+with ThreadPoolExecutor(6) as ex:
+    verified = dict(ex.map(_verify, todo))
 for mid in sorted(os.listdir(root)):
     d = os.path.join(root, mid)
     if not os.path.isdir(d): continue
@@ -23,7 +34,7 @@ for mid in sorted(os.listdir(root)):
     if 'demonstration' in old and '--reverify' not in sys.argv:
         meta['demonstration'] = old['demonstration']
     else:
-        out = subprocess.run(['/verif/tools/verify_demo.sh', d], capture_output=True, text=True).stdout.strip()
+        out = verified[mid] if mid in verified else _verify(mid)[1]
         try: meta['demonstration'] = json.loads(out)
         except Exception: meta['demonstration'] = {'error': out}
         meta['demonstration']['command'] = 'tools/verify_demo.sh seeded/%s  (scratch worktree of /repo HEAD: go build+vet, go test ./..., demo with and without patch.diff)' % mid
